@@ -376,3 +376,52 @@ func startNackClient(addr, listener string, spec NackSpec) (*nackClient, error) 
 	}
 	return n, nil
 }
+
+// stormClient: goroutines that open StreamWAL (the primary registers a session),
+// wait for the stream header and cancel the stream at once (the handler returns
+// and unregisters the session), in a tight loop over one connection each.
+type stormClient struct {
+	conns  []*grpc.ClientConn
+	stop   chan struct{}
+	cycles atomic.Int64
+	errs   atomic.Int64
+}
+
+func startStorm(addr, listener string, goroutines int) (*stormClient, error) {
+	st := &stormClient{stop: make(chan struct{})}
+	for g := 0; g < goroutines; g++ {
+		ctx, cancel := context.WithTimeout(context.Background(), 10*time.Second)
+		conn, err := grpc.DialContext(ctx, addr, grpc.WithTransportCredentials(insecure.NewCredentials()), grpc.WithBlock())
+		cancel()
+		if err != nil {
+			return nil, fmt.Errorf("storm dial: %w", err)
+		}
+		st.conns = append(st.conns, conn)
+		go func(conn *grpc.ClientConn) {
+			cli := rpb.NewWALReplicationServiceClient(conn)
+			for {
+				select {
+				case <-st.stop:
+					return
+				default:
+				}
+				sctx, scancel := context.WithCancel(context.Background())
+				// far behind the end of the log: the session is wanted, not the data
+				s, err := cli.StreamWAL(sctx, &rpb.WALStreamRequest{StartSequence: 1 << 62, ProtocolVersion: 1, ListenerAddress: listener})
+				if err == nil {
+					_, err = s.Header()
+				}
+				scancel()
+				if err != nil {
+					st.errs.Add(1)
+					time.Sleep(time.Millisecond)
+					continue
+				}
+				st.cycles.Add(1)
+			}
+		}(conn)
+	}
+	return st, nil
+}
+
+func (st *stormClient) halt() { close(st.stop) }
